@@ -88,7 +88,7 @@ def trees(draw, max_levels=4, max_leaves=12, min_levels=1, allow_odd=True,
         for li in range(n_levels):
             keys = draw(st.permutations(list(data[levels[li]].keys())))
             data[levels[li]] = {k: data[levels[li]][k] for k in keys}
-    if mappers and draw(st.integers(0, 3)) == 0:
+    if mappers and (mappers == 'often' and draw(st.integers(0, 2)) > 0 or draw(st.integers(0, 3)) == 0):
         nm = {}
         for li in range(n_levels):
             if draw(st.booleans()):
@@ -231,9 +231,9 @@ def map_configs(draw, tree_data, n_cells, factor=None, allow_flatten=True, allow
 @st.composite
 def map_cases(draw, max_levels=4, max_leaves=10, factor=None, allow_flatten=True,
               allow_drop=True, min_top=1, max_cells=12, dtypes=DTYPES, allow_odd=True,
-              family=None, tree=None, max_iter=12, encs=('csr', 'csc', 'dense')):
+              family=None, tree=None, max_iter=12, encs=('csr', 'csc', 'dense'), mappers=True):
     tree_data = tree if tree is not None else draw(trees(max_levels=max_levels, max_leaves=max_leaves,
-                                                         allow_odd=allow_odd, min_top=min_top))
+                                                         allow_odd=allow_odd, min_top=min_top, mappers=mappers))
     ref = draw(ref_specs(tree_data, family=family))
     markers = draw(marker_tables(tree_data, ref['genes']))
     # at least one root gene is placed in the query (usable at the root)
